@@ -572,6 +572,10 @@ func famCli(tr *Trace, id *int, scratch, bin, behaviours string) int {
 			outDir = filepath.Join(work, "nightly-2024.06.01")
 		}
 		cwd := filepath.Join(work, "cwd")
+		if targetKind == "dir_tilde" { // an existing directory, named relative to the working directory, whose name starts with a tilde
+			outDir = filepath.Join(cwd, "~pkgs")
+		}
+		must(os.MkdirAll(filepath.Join(work, "home"), 0o755))
 		must(os.MkdirAll(outDir, 0o755))
 		must(os.MkdirAll(cwd, 0o755))
 		os.RemoveAll(root)
@@ -620,6 +624,10 @@ func famCli(tr *Trace, id *int, scratch, bin, behaviours string) int {
 			target = filepath.Join(outDir, "custom-name"+exts[other[f]])
 		case "file_no_ext":
 			target = filepath.Join(outDir, "artifact")
+		case "file_tilde": // a file name that starts with a tilde, relative to the working directory (not a home directory reference)
+			target = "~custom-name" + exts[f]
+		case "dir_tilde":
+			target = "~pkgs"
 		case "dir", "dir_dotted":
 			target = outDir
 		case "dir_slash":
@@ -654,7 +662,7 @@ func famCli(tr *Trace, id *int, scratch, bin, behaviours string) int {
 		t0 := time.Now()
 		cmd := exec.Command(bin, args...)
 		cmd.Dir = cwd
-		cmd.Env = append(os.Environ(), "TZ=UTC", "VERIF_CLI_VERSION=1.2.3", "VERIF_CLI_DEP=base-dep", "VERIF_CLI_ROOT="+root, "VERIF_CLI_VENDOR="+c.Vendor)
+		cmd.Env = append(os.Environ(), "HOME="+filepath.Join(work, "home"), "TZ=UTC", "VERIF_CLI_VERSION=1.2.3", "VERIF_CLI_DEP=base-dep", "VERIF_CLI_ROOT="+root, "VERIF_CLI_VENDOR="+c.Vendor)
 		var so, se bytes.Buffer
 		cmd.Stdout, cmd.Stderr = &so, &se
 		err := cmd.Run()
@@ -680,7 +688,9 @@ func famCli(tr *Trace, id *int, scratch, bin, behaviours string) int {
 		switch targetKind {
 		case "file", "file_foreign_ext", "file_other_ext", "file_no_ext", "devfull", "existing_larger":
 			expPath = target
-		case "dir", "dir_slash", "dir_dotted":
+		case "file_tilde":
+			expPath = filepath.Join(cwd, target)
+		case "dir", "dir_slash", "dir_dotted", "dir_tilde":
 			expPath = filepath.Join(outDir, refName)
 		case "symlink_dir":
 			expPath = filepath.Join(outDir, refName)
@@ -697,7 +707,20 @@ func famCli(tr *Trace, id *int, scratch, bin, behaviours string) int {
 			}
 		}
 		// the abstract state of Cli.tla, projected from what is on disk
-		outF, cwdF := listFiles(outDir), listFiles(cwd)
+		cwdList := func() []any { // (for dir_tilde the output directory lies inside the working directory: it is listed on its own)
+			var out []any
+			for _, nm := range listFiles(cwd) {
+				if targetKind == "dir_tilde" && strings.HasPrefix(nm.(string), "~pkgs/") {
+					continue
+				}
+				out = append(out, nm)
+			}
+			if out == nil {
+				out = []any{}
+			}
+			return out
+		}
+		outF, cwdF := listFiles(outDir), cwdList()
 		obsWhere, obsFs := "", "absent"
 		locate := func(dir string, names []any, whereConv string) {
 			for _, nm := range names {
@@ -743,7 +766,7 @@ func famCli(tr *Trace, id *int, scratch, bin, behaviours string) int {
 		tr.Emit(*id, []M{{"ev": "case", "id": *id, "fam": "cli"},
 			{"ev": "cli", "fmt": f, "built": built, "target_kind": targetKind, "fault": fault, "with_p": withP, "exit": exit,
 				"created_line": rel(created), "expected_path": rel(expPath), "file_at_expected": atExp, "bytes_equal_library_build": same,
-				"out_files": listFiles(outDir), "cwd_files": listFiles(cwd), "output": safeStr(rel(strings.ReplaceAll(outS, root, "$ROOT"))),
+				"out_files": listFiles(outDir), "cwd_files": cwdList(), "output": safeStr(rel(strings.ReplaceAll(outS, root, "$ROOT"))),
 				"mentions_cause": strings.Contains(outS, "postinstall") && fault == "missing_script" || strings.Contains(outS, "app.conf") && fault == "missing_source" ||
 					strings.Contains(outS, "unknown_key") && fault == "bad_config" || fault == "missing_key" && (strings.Contains(outS, "no-such-dir") || strings.Contains(outS, "sign")) || fault == "devfull" && (strings.Contains(outS, "no space") || strings.Contains(outS, "write")),
 				"mentions_packager": strings.Contains(outS, "packager"),
@@ -812,7 +835,7 @@ func famCli(tr *Trace, id *int, scratch, bin, behaviours string) int {
 		return n
 	}
 	for _, f := range allFormats {
-		for _, tk := range []string{"file", "dir", "dir_slash", "dir_dotted", "empty", "symlink_dir", "existing_larger"} {
+		for _, tk := range []string{"file", "dir", "dir_slash", "dir_dotted", "file_tilde", "dir_tilde", "empty", "symlink_dir", "existing_larger"} {
 			run(f, tk, "none", true, nil)
 		}
 		run(f, "file", "none", false, nil) // packager inferred from the extension
